@@ -1,7 +1,8 @@
 From Coq Require Import Extraction ExtrOcamlBasic.
-From TK Require Import Knn_Spec Knn_Brute_Model Knn_VpTree_Model Knn_CoverSel_Model CoverTree_Model CoverTree_Build_Model.
+From TK Require Import Knn_Spec Knn_Brute_Model Knn_VpTree_Model Knn_CoverSel_Model CoverTree_Model CoverTree_Build_Model Knn_Wrapper_Model.
 Extraction "c02_model.ml" is_knn_b dists_sorted metric_b samples
   nth_ok_b brute_dists_fixed brute_row_fixed brute_dists brute_row nth_element_ref
   items vp_inv_b vp_shape_b vp_holds_b vp_search vp_search_dists vp_row vp_row_fixed build piv_first nth_sort
   ct_select ct_select_fixed cand_complete_b cand_exact_b
-  ct_query valid_b no_audit ct_inv_b ct_holds_b leaf100_b ct_fuel leaf_points batch_create.
+  ct_query valid_b no_audit ct_inv_b ct_holds_b leaf100_b ct_fuel leaf_points batch_create
+  find_neighbors_core all_knn_b sels_ref fn_incomplete.
